@@ -2817,10 +2817,30 @@ impl<T, S: Storage<Elem = T>, L: Layout> Layout for WeaklyCheckedView<S, L> {
     }
 }
 
+impl<S: Storage, L: Layout> WeaklyCheckedView<S, L> {
+    /// Return the storage offset for `index`.
+    ///
+    /// Checking only the offset is sufficient if every element of the storage
+    /// belongs to this view. Otherwise the storage may contain elements of
+    /// other views (eg. if this view is one half of a tensor that was split
+    /// along an inner axis), which an out-of-bounds index could alias. In that
+    /// case the index is fully checked.
+    fn weakly_checked_offset<I: AsIndex<L>>(&self, index: I) -> usize {
+        if self.base.layout.len() == self.base.data.len() {
+            self.base.layout.offset_unchecked(index.as_index())
+        } else {
+            self.base
+                .layout
+                .offset(index.as_index())
+                .expect("invalid index")
+        }
+    }
+}
+
 impl<T, S: Storage<Elem = T>, L: Layout, I: AsIndex<L>> Index<I> for WeaklyCheckedView<S, L> {
     type Output = T;
     fn index(&self, index: I) -> &Self::Output {
-        let offset = self.base.layout.offset_unchecked(index.as_index());
+        let offset = self.weakly_checked_offset(index);
         unsafe {
             // Safety: See comments in [Storage] trait.
             self.base.data.get(offset).expect("invalid offset")
@@ -2830,7 +2850,7 @@ impl<T, S: Storage<Elem = T>, L: Layout, I: AsIndex<L>> Index<I> for WeaklyCheck
 
 impl<T, S: StorageMut<Elem = T>, L: Layout, I: AsIndex<L>> IndexMut<I> for WeaklyCheckedView<S, L> {
     fn index_mut(&mut self, index: I) -> &mut Self::Output {
-        let offset = self.base.layout.offset_unchecked(index.as_index());
+        let offset = self.weakly_checked_offset(index);
         unsafe {
             // Safety: See comments in [Storage] trait.
             self.base.data.get_mut(offset).expect("invalid offset")
